@@ -130,6 +130,45 @@ def check_fresh(cx, chk, R="C20.fresh"):
     chk.floor(R, "parse_advanced implementations", n, 80)
 
 
+ADDRESS_API = ("as_ptr", "as_mut_ptr", "align_to", "align_to_mut", "align_offset", "addr", "expose_addr", "expose_provenance", "is_aligned", "is_aligned_to",
+               "as_ptr_range", "from_raw_parts", "from_exposed_addr", "with_exposed_provenance")
+
+
+def check_address(cx, chk):
+    """A parse is a function of the text and settings, not of where the text lies in memory: nothing reachable from generated
+    parsers observes an address (pointer -> integer casts, alignment queries, `align_to` splits)."""
+    rt = cx.runtime
+    n = 0
+    bodies = [(rt, p, "runtime") for p in c04.runtime_reachable(cx, rt)]
+    for inst in cx.instances():
+        bodies += [(inst.crate, p, inst.name) for p, f in inst.fns.items() if "mir" in f]
+    for (crate, p, label) in bodies:
+        if "Tracer" in p or "fmt::" in p:
+            continue
+        b = cx.body(crate, p)
+        for i, t in b.calls():
+            f = t["func"]
+            if f.get("indirect") or t.get("fn_exp"):
+                continue
+            n += 1
+            l = last(f["path"])
+            path = mir.strip_generics(f["path"])
+            if l in ADDRESS_API and (f["krate"] in ("core", "alloc", "std")) and ("ptr" in path or "slice" in path or "str" in path or "NonNull" in path):
+                chk.violation("C20.address", "%s %s -> %s" % (label, short(p), short(f["path"])),
+                              "%s observes where its input lies in memory (%s): the result of a parse can then depend on the address / alignment of the "
+                              "text, i.e. differ between two parses of the same text" % (short(p), path), cx.site(b, i))
+        for i in b.reach:
+            for st in b.blocks[i]["stmts"]:
+                if st["k"] == "assign" and st["rv"]["k"] == "cast" and not st.get("exp"):
+                    kd = str(st["rv"].get("kind"))
+                    if "PointerExpose" in kd or "PtrToInt" in kd or "PointerWithExposed" in kd or "Transmute" in kd:
+                        n += 1
+                        chk.violation("C20.address", "%s %s cast %s" % (label, short(p), kd.split("(")[0]),
+                                      "%s turns a pointer into an integer (or transmutes): the result of a parse can then depend on an address" % short(p), cx.site(b, i))
+    chk.ok("C20.address", "calls and casts scanned", {"scanned": n})
+    chk.floor("C20.address", "calls scanned for address observation", n, 4000)
+
+
 def check_sinks(cx, chk):
     rt = cx.runtime
     tracerish = lambda p: ("Tracer" in p or "PrettyParseError" in p or "fmt::" in p)
@@ -184,3 +223,4 @@ def run(cx, chk):
     check_freeze(cx, chk)
     check_fresh(cx, chk)
     check_sinks(cx, chk)
+    check_address(cx, chk)
